@@ -142,6 +142,11 @@ def rtm : Handler := fun args impl =>
     | _, _, _ => bad "decode"
   | _ => bad "arity"
 
-def handlers : List (String × Handler) := [("rtv", rtv), ("rtt", rtt), ("rtm", rtm)]
+/-- `rtw <cfg> <family> <schema> <tval> <floats>` — the WIDE documents of `c04m.rs` (`<container>-<variant kind>-<n>`: 100 … 300
+    (thorough: 1000) enum values of one variant kind side by side in a `Vec`, a `BTreeMap<u16, _>` or spread over a struct of
+    vectors): same model and same specification as `rtm` (the second argument is a name instead of a seed). -/
+def rtw : Handler := rtm
+
+def handlers : List (String × Handler) := [("rtv", rtv), ("rtt", rtt), ("rtm", rtm), ("rtw", rtw)]
 
 end SJ.Drv.C04
